@@ -128,6 +128,27 @@ class VX:
                     if rv['k'] == 'agg' and rv['adt'].startswith('closure:') and not u['dst']['p'] and not body.uses.get(u['dst']['l']): continue   # captured by a closure whose body has been spliced (the value is dead)
                     escaped.add(x)
         self.escaped = escaped      # locals mutably borrowed for something else than an OpAssign / a spliced closure
+        # locals written field by field: local -> {field: [definitions of that field]}  (assignments `l.f = ..` and `l.f op= y` through `&mut l.f`)
+        self.fieldwise = {}
+        fref = {}
+        for bi, st in body.stmts():
+            d = st['dst']; pp = [x for x in d['p'] if x != '*']
+            if len(pp) == 1 and isinstance(pp[0], dict) and 'f' in pp[0] and '*' not in d['p'] and not (1 <= d['l'] <= body.argc):
+                self.fieldwise.setdefault(d['l'], {}).setdefault(pp[0]['f'], []).append(('stmt', bi, st))
+            rv = st['rv']
+            if rv['k'] == 'ref' and rv.get('mut') and not d['p'] and len(rv['pl']['p']) == 1 and isinstance(rv['pl']['p'][0], dict) and 'f' in rv['pl']['p'][0]:
+                fref[d['l']] = (rv['pl']['l'], rv['pl']['p'][0]['f'])
+        for r, (l, f) in fref.items():
+            for kind, bi, u in body.uses.get(r, ()):
+                if kind == 'call':
+                    m = T.ASSIGN_CALL.match(u.name)
+                    if m and u.arg_local(0) == r and not u.args[0]['pl']['p']:
+                        self.fieldwise.setdefault(l, {}).setdefault(f, []).append(('opassign', u.bb, (m.group(1), u.args[1], (l, f))))
+        # a local with any other kind of partial write is not modelled
+        for l in list(self.fieldwise):
+            for k, bi, d in body.defs_of(l):
+                pp = [x for x in d['dst']['p']]
+                if pp and not (len(pp) == 1 and isinstance(pp[0], dict) and 'f' in pp[0]): self.fieldwise.pop(l, None); break
 
     def opaque(self, l):
         if l not in self.escaped: return False
@@ -186,6 +207,20 @@ class VX:
                 return ('proj', node, rest) if rest else node
         q = _split(p)
         if q is None or depth <= 0 or 1 <= l <= b.argc: return unresolved()
+        if q and 'f' in q[0] and l in self.fieldwise:
+            # a tuple / struct local that is also written field by field (`out.0 += x`): its field is a variable of its own - defined by the field of the
+            # whole-value definitions and by the assignments to that field
+            key = (l, q[0]['f']); rest = q[1:]
+            if key in acc: return ('acc', key) if not rest else unresolved()
+            fd = self.fieldwise[l].get(q[0]['f'], [])
+            whole = [d for d in b.defs_of(l) if not d[2]['dst']['p']]
+            cands = [('w', d) for d in whole] + [('f', d) for d in fd]
+            if not cands: return unresolved()
+            nodes = []; bbs = []
+            for kind, d in cands:
+                sub = acc | {key} if len(cands) > 1 else acc
+                nodes.append(self.apply(d, [q[0]] + rest, l, sub, depth - 1) if kind == 'w' else self.apply(d, rest, l, sub, depth - 1)); bbs.append(d[1])
+            return nodes[0] if len(nodes) == 1 else ('phi', key, nodes, bbs)
         if l in acc: return ('acc', l) if not q else unresolved()
         ds = self.defs(l)
         if not ds or self.opaque(l): return unresolved()
@@ -240,6 +275,9 @@ class VX:
             if node[0] == 'proj': return ('proj', node[1], node[2] + fs)
             return ('proj', node, fs)
         if kind == 'opassign':
+            if len(x) == 3:           # `l.f op= rhs` through `&mut l.f`
+                op, rhs, key = x
+                return wrap(('bin', op, self.place(key[0], [{'f': key[1], 'of': 'tuple'}], acc, depth), self.op(rhs, acc, depth)))
             op, rhs = x
             return wrap(('bin', op, self.place(l, [], acc, depth), self.op(rhs, acc, depth)))
         if kind == 'call':
@@ -714,9 +752,9 @@ def reach_v(body, starts, stop=(), cut=(), env0=None):
     return out
 
 
-def must_pass_v(body, start, targets, via):
-    """templates.must_pass on reach_v: every path from `start` to a block in `targets` passes a block in `via`"""
-    return not (reach_v(body, [start], stop=set(via)) & set(targets))
+def must_pass_v(body, start, targets, via, cut=()):
+    """templates.must_pass on reach_v: every path from `start` to a block in `targets` passes a block in `via` (edges in `cut` are not taken)"""
+    return not (reach_v(body, [start], stop=set(via), cut=cut) & set(targets))
 
 
 def err_index(body, local, default=0):
@@ -913,7 +951,7 @@ def comp_leaves(c):
 
 class Kernel:
     def __init__(self, ctx, body):
-        self.ctx = ctx; self.body = body; self.vx = VX(body); self.spec = None; self.scope = None; self.oks = None      # oks: the Ok-exits that count as "the" exit (shortcut exits are validated separately)
+        self.ctx = ctx; self.body = body; self.vx = VX(body); self.spec = None; self.scope = None; self.cut = set(); self.oks = None      # oks: the Ok-exits that count as "the" exit (shortcut exits are validated separately)
         self.for_loops = T.for_loops(body)                       # (next_call, header, some_bb, none_bb, blocks)
         self.lockstep = {}                                       # next-call block -> representative next-call block of the same hand-written zip
         self.for_loops += self._lockstep_loops()
@@ -1202,7 +1240,7 @@ class Kernel:
             if not must_pass_v(body, L1[2], oks, {L1[1]}): why.append('the loop can be left before the last element without an error')
         for Lo, Li in zip(los, los[1:]):
             if Li[1] not in Lo[4]: why.append('loops are not nested'); continue
-            if not must_pass_v(body, Lo[2], {Lo[1]}, {Li[1]}): why.append('the inner loop is skipped on some path')
+            if not must_pass_v(body, Lo[2], {Lo[1]}, {Li[1]}, self.cut): why.append('the inner loop is skipped on some path')
             if not must_pass_v(body, Li[2], {Lo[1]}, {Li[1]}): why.append('the inner loop can be left before its last element')
         Lk = los[-1]
         if not must_pass_v(body, Lk[2], {Lk[1]}, set(sites)): why.append('a path through the loop body skips it')
@@ -1296,9 +1334,14 @@ def returned_pair(body):
                     if len(ds) == 1 and ds[0][0] == 'stmt' and ds[0][2]['rv']['k'] == 'use' and ds[0][2]['rv']['ops'][0]['k'] in ('copy', 'move') and not ds[0][2]['rv']['ops'][0]['pl']['p'] and not ds[0][2]['dst']['p']:
                         l = ds[0][2]['rv']['ops'][0]['pl']['l']
                     else: break
+                fieldwise = any(d['dst']['p'] for k2, b2, d in body.defs_of(l)) or any(st['rv']['k'] == 'ref' and st['rv'].get('mut') and st['rv']['pl']['l'] == l and st['rv']['pl']['p'] for b2, st in body.stmts())
                 for k2, b2, d in body.defs_of(l):
-                    if k2 == 'stmt' and d['rv']['k'] == 'agg' and d['rv']['adt'] == 'tuple' and len(d['rv']['ops']) == 2:
-                        out.append((e, d['rv']['ops'][0], d['rv']['ops'][1]))
+                    if k2 == 'stmt' and d['rv']['k'] == 'agg' and d['rv']['adt'] == 'tuple' and len(d['rv']['ops']) == 2 and not d['dst']['p']:
+                        if fieldwise:
+                            # `let mut out = (init, set); out.0 += ..; out.1.insert(..); Ok(out)`: the components as they are at the exit
+                            out.append((e, {'k': 'copy', 'pl': {'l': l, 'p': [{'f': '0', 'of': 'tuple'}]}}, {'k': 'move', 'pl': {'l': l, 'p': [{'f': '1', 'of': 'tuple'}]}}))
+                        else:
+                            out.append((e, d['rv']['ops'][0], d['rv']['ops'][1]))
     return out
 
 
@@ -1344,24 +1387,9 @@ def kernel_rules(ctx, short):
     # guard turned into an early return: `if list.is_empty() { return Ok((start value, start set)) }` is the main exit after zero iterations.
     # Exits inside the true-side of an is_empty() test are candidates; they are validated once the term loop is known (shortcut_problems).
     guarded = {}
-    for c in body.calls:
-        if c.item == 'is_empty' and len(c.args) == 1 and re.search(r'(Vec::<.*>|\[.*\]>?)::is_empty$', T.strip_generics_tail(c.name)):
-            for g in T.guards_from_call(body, c):
-                if g.true_bb is None: continue
-                for pr in pairs:
-                    if pr[0] in body.edge_region(g.switch_bb, g.true_bb): guarded.setdefault(pr[0], []).append(c)
-    # `list.len() == 0` (true side) / `list.len() != 0`, `list.len() > 0` (false side) are the same test
-    for c in body.calls:
-        if c.item == 'len' and len(c.args) == 1 and re.search(r'(Vec::<.*>|\[.*\]>?)::len$', T.strip_generics_tail(c.name)) and not c.dst['p']:
-            for kind, bi, st in body.uses.get(c.dst['l'], ()):
-                if kind != 'stmt' or st['rv']['k'] != 'bin' or st['rv']['op'] not in ('Eq', 'Ne', 'Gt') or st['dst']['p']: continue
-                o1 = st['rv']['ops'][1]
-                if o1['k'] != 'const' or not o1['v'].startswith('0_usize'): continue
-                for g in T.guards_from_local(body, st['dst']['l'], bi):
-                    tgt = g.true_bb if st['rv']['op'] == 'Eq' else g.false_bb
-                    if tgt is None: continue
-                    for pr in pairs:
-                        if pr[0] in body.edge_region(g.switch_bb, tgt): guarded.setdefault(pr[0], []).append(c)
+    for c, sb, tgt in empty_guards(body):
+        for pr in pairs:
+            if pr[0] in body.edge_region(sb, tgt): guarded.setdefault(pr[0], []).append(c)
     mains = [pr for pr in pairs if pr[0] not in guarded]
     shortcuts = [pr for pr in pairs if pr[0] in guarded] if len(mains) == 1 else []
     done = []
@@ -1432,6 +1460,22 @@ def kernel_rules(ctx, short):
 
     # ---- init
     if part_info is None: init_check(ctx, K, short, spec['init'], inits, Lp)
+
+    # ---- a special case split off inside the loop: `if term.ids.is_empty() { sum += term.coefficient; continue; }` is the general update after zero
+    # iterations of the id loop.  Such an update is validated here (guard = emptiness of the term's own id list, term = the bare coefficient); the guarded edge is
+    # then not a way of "skipping" the id loop for the every-iteration questions.
+    short_ups = []; short_probs = []
+    if len(ups) > 1:
+        for u in list(ups):
+            for c, sb, tgt in empty_guards(body):
+                if u[2] not in body.edge_region(sb, tgt): continue
+                mp = K.msg_path(vx.op(c.args[0]))
+                fac = product_factors(u[1], None, vx)
+                cm = [K.msg_path(f) for f, via in fac]
+                if mp is not None and any(same_path(mp[0], p) for p in spec['ids']) and [K.canon(x) for x in mp[1]] == [tl] \
+                        and len(fac) == 1 and cm[0] is not None and same_path(cm[0][0], spec['coef']) and [K.canon(x) for x in cm[0][1]] == [tl] and len(ups) - len(short_ups) > 1:
+                    short_ups.append(u); K.cut.add((sb, tgt)); break
+        ups = [u for u in ups if u not in short_ups]
 
     # ---- the term: coefficient × Π state[id]   (main phase, plus the written-out part if there is one)
     A = term_analysis(K, spec, ups, term_loop)
@@ -1592,6 +1636,25 @@ def start_value(l, alts):
     return ('phi', l, [x for x, b in alts], [b for x, b in alts])
 
 
+def empty_guards(body):
+    """tests "this list is empty": (the is_empty()/len() call, switch block, the target taken when the list IS empty).
+    `list.is_empty()` (true side) ≡ `list.len() == 0` (true side) ≡ `list.len() != 0` / `list.len() > 0` (false side)"""
+    out = []
+    for c in body.calls:
+        if c.item == 'is_empty' and len(c.args) == 1 and re.search(r'(Vec::<.*>|\[.*\]>?)::is_empty$', T.strip_generics_tail(c.name)):
+            for g in T.guards_from_call(body, c):
+                if g.true_bb is not None: out.append((c, g.switch_bb, g.true_bb))
+        if c.item == 'len' and len(c.args) == 1 and re.search(r'(Vec::<.*>|\[.*\]>?)::len$', T.strip_generics_tail(c.name)) and not c.dst['p']:
+            for kind, bi, st in body.uses.get(c.dst['l'], ()):
+                if kind != 'stmt' or st['rv']['k'] != 'bin' or st['rv']['op'] not in ('Eq', 'Ne', 'Gt') or st['dst']['p']: continue
+                o1 = st['rv']['ops'][1]
+                if o1['k'] != 'const' or not o1['v'].startswith('0_usize'): continue
+                for g in T.guards_from_local(body, st['dst']['l'], bi):
+                    tgt = g.true_bb if st['rv']['op'] == 'Eq' else g.false_bb
+                    if tgt is not None: out.append((c, g.switch_bb, tgt))
+    return out
+
+
 def shortcut_problems(K, pair, guards, term_loop, rec, main_sop):
     """why the early exit `pair` (taken when a list is empty) does NOT return what the main exit returns after zero iterations"""
     body = K.body; vx = K.vx; e, vop, sop = pair; why = []
@@ -1736,13 +1799,31 @@ def used_analysis(K, spec, sop):
     """(id fields recorded in the returned set, wanted id fields, stray-insert problems, every-id problems)"""
     body = K.body; vx = K.vx
     set_l = T.access_path(body, sop, transparent=T.TRANSPARENT_NOCLONE)[1]
+    # the result set may be made at the end from a container the ids were gathered in: `ids_vec.into_iter().collect()` / BTreeSet::from_iter(view of C)
+    # -> what is recorded into C (push / insert / extend / extend_from_slice) is recorded into the set.  The conversion must lie outside the loops.
+    roots = {set_l}
+    for _ in range(3):
+        for r in list(roots):
+            if r is None: continue
+            ds = body.defs_of(r)
+            if len(ds) == 1 and ds[0][0] == 'call' and re.search(r'::(collect|from_iter)$', T.strip_generics_tail(ds[0][2]['r'] or ds[0][2]['f'])) and ds[0][2]['args'] and not K.nest(ds[0][1]):
+                src = vx.op(ds[0][2]['args'][0])
+                while src[0] == 'call' and ITERISH.search(T.strip_generics_tail(src[2])) and src[3]: src = src[3][0]
+                if src[0] == 'local' and src[1] >= 0: roots.add(src[1])
     def into_set(c):
-        return T.access_path(body, c.args[0], transparent=T.TRANSPARENT_NOCLONE)[1] == set_l
+        return T.access_path(body, c.args[0], transparent=T.TRANSPARENT_NOCLONE)[1] in roots
     sites = []          # (call, path fields, loops chain)
     stray = []
     for c in body.calls:
         nm = T.strip_generics_tail(c.name)
-        if c.item == 'insert' and SET_INSERT.search(nm) and len(c.args) == 2:
+        if c.item in ('extend_from_slice', 'extend') and re.search(r'Vec::<.*>::extend_from_slice$|Vec<.*> as std::iter::Extend<.*>>::extend$', nm) and len(c.args) == 2 and into_set(c) and len(roots) > 1:
+            comp = components(vx.op(c.args[1]))            # C.extend_from_slice(&list) ≡ for x in list { C.push(x) }
+            mp = K.msg_path(comp[1]) if comp[0] == 'src' else None
+            if mp is not None and any(same_path(mp[0], p) for p in spec['ids']): sites.append((c, mp[0], mp[1]))
+        elif c.item == 'push' and re.search(r'Vec::<.*>::push$', nm) and len(c.args) == 2 and into_set(c) and len(roots) > 1:
+            for mp in K.msg_paths(vx.op(c.args[1])):
+                if any(same_path(mp[0], p) for p in spec['ids']): sites.append((c, mp[0], mp[1]))
+        elif c.item == 'insert' and SET_INSERT.search(nm) and len(c.args) == 2:
             for mp in K.msg_paths(vx.op(c.args[1])):           # an insert in `for id in [a, b]` records a and b
                 if not any(same_path(mp[0], p) for p in spec['ids']): continue
                 (sites if into_set(c) else stray).append((c, mp[0], mp[1]))
@@ -1765,6 +1846,12 @@ def used_analysis(K, spec, sop):
     want = sorted(p[-1][1] for p in spec['ids'])
     seen = sorted({s[1][-1][1] for s in sites})
     strays = [('id is inserted into another set', body.site(c.bb)) for c, fs, ch in stray if not any(same_path(s[1], fs) for s in sites)]
+    # the set (and a container it is made from) only grows: no other mutation through a `&mut` of it
+    for r, x in vx.alias.items():
+        if x not in roots: continue
+        for kind, bi, u in body.uses.get(r, ()):
+            if kind == 'call' and u.arg_local(0) == r and u.item not in ('insert', 'extend', 'push', 'extend_from_slice', 'reserve', 'append'):
+                strays.append(('the recorded ids are changed by `%s`' % u.item, body.site(u.bb)))
     return seen, want, strays, probs, set_l
 
 
